@@ -61,6 +61,10 @@ def load_known_findings():
     return res
 
 
+MODULE_PANIC_PROPS = {'server.rs': ['C05'], 'packet.rs': ['C05', 'C10'], 'convert.rs': ['C05', 'C10'], 'socket.rs': ['C05'],
+                      'worker.rs': ['C07'], 'window.rs': ['C18'], 'config.rs': ['C17'], 'client_config.rs': ['C17'], 'client.rs': ['C14']}
+
+
 class Universe:
     """all obligations declared by the sidecars, per woven file"""
 
@@ -69,6 +73,7 @@ class Universe:
         self.oblig = {}     # id -> {'props': [...], 'file':, 'fn':, 'text':, 'kind':}
         self.fn_nopanic = {}  # (file, fnname) -> obligation id
         self.contracted = {}  # (file, fnpath)
+        self.auto_helpers = {}  # file -> names of helper fns included without a contract
         self.fn_external = {}  # (file, fnpath) -> body not verified (external_body / trait declaration)
         self.assumed = {}      # tagged ensures clauses of external_body functions: assumptions, not obligations
         for fname, blocks in info['blocks'].items():
@@ -76,6 +81,14 @@ class Universe:
                 fnpath = None
                 if b['directive'] in ('fn', 'loop', 'before', 'after', 'inline', 'inline-after', 'body-start', 'loop-body', 'loop-end', 'wrap-arg'):
                     fnpath = split_args(b['args'])[0]
+                if b['directive'] == 'fn' and b['sidecar'] == '<generated>':
+                    # helper brought in automatically (no sidecar): only its own panic-freedom is an obligation
+                    oid = '%s.%s.nopanic(new helper)' % (fname[:-3], short_fn(fnpath))
+                    self.oblig[oid] = {'props': MODULE_PANIC_PROPS.get(fname, []), 'file': fname, 'fn': fnpath, 'kind': 'nopanic',
+                                       'text': 'new helper %s (no contract yet): its body must not panic' % fnpath}
+                    self.fn_nopanic[(fname, last_seg(fnpath))] = oid
+                    self.auto_helpers.setdefault(fname, []).append(last_seg(fnpath))
+                    continue
                 if b['directive'] == 'fn':
                     m = re.search(r'nopanic=([A-Z0-9,]+)', b['args'])
                     self.contracted[(fname, fnpath)] = True
@@ -484,6 +497,29 @@ def fn_key_matches(fnkey, fname, fnpath):
 def decide(pid, uni, ana, known):
     obl = uni.for_property(pid)
     failed = {k: v for k, v in ana['failed'].items() if k in obl}
+    # a caller of a NEW helper that has no contract yet cannot be verified against facts the helper hides: its failing
+    # non-panic obligations are inconclusive, not violations
+    hidden = {}
+    for fname, names in uni.auto_helpers.items():
+        try:
+            txt = open(os.path.join(REPO, 'src', fname)).read()
+        except OSError:
+            continue
+        for oid, descs in list(failed.items()):
+            o = obl[oid]
+            if o['file'] != fname or o['kind'] == 'nopanic' or not o['fn']:
+                continue
+            try:
+                from rustscan import Source
+                _, op, cl = Source(txt).find_fn(o['fn'])
+                body = txt[op:cl] if op else ''
+            except Exception:
+                body = ''
+            used = [n for n in names if re.search(r'\b%s\(' % re.escape(n), body)]
+            if used:
+                hidden[oid] = used
+    for oid in hidden:
+        failed.pop(oid, None)
     kf = [k for k in known if k['property'] == pid]
     known_hit, new = {}, {}
     for oid, descs in failed.items():
@@ -494,6 +530,8 @@ def decide(pid, uni, ana, known):
             new[oid] = descs
     # functions hosting this property's obligations must have been verified (vacuity / completeness guard)
     inconclusive = list(ana['inconclusive'])
+    for oid, used in hidden.items():
+        inconclusive.append('obligation %s fails, but its function now calls the new helper(s) %s which have no contract yet: undecided' % (oid, ', '.join(used)))
     hosts = sorted(set((o['file'], o['fn']) for o in obl.values() if o['fn'] and not uni.fn_external.get((o['file'], o['fn']))))
     host_results = []
     for (fname, fnpath) in hosts:
